@@ -445,8 +445,8 @@ func replayKnown(r *hx.Run, ts []target) {
 			for k := len(plain) - 1; k > 0 && !found; k-- {
 				if plain[k-1] == '\n' {
 					got := f.run(rewrap(plain[:k]))
-					if classify(f.intact, got) == clSubset && t.valid(rewrap(plain[:k])) {
-						r.KnownSeen(t.findingClass(), witness(f, fmt.Sprintf("plain-cut@%d/%d", k, len(plain)), clSubset, got))
+					if cl := classify(f.intact, got); (cl == clSubset || (cl == clDifferent && t.class == "vex-plain")) && t.valid(rewrap(plain[:k])) {
+						r.KnownSeen(t.findingClass(), witness(f, fmt.Sprintf("plain-cut@%d/%d", k, len(plain)), cl, got))
 						found = true
 					}
 				}
